@@ -51,11 +51,19 @@ Fixpoint enc_stmt (s : stmt) : list Z :=
          end) cs
   end.
 
+Definition enc_mem (m : meminst) : list Z :=
+  11 :: zn (length (mi_wports m)) ::
+  flat_map (fun p => zn (wp_dom p) :: enc_expr (wp_addr p) ++ enc_expr (wp_data p) ++ enc_expr (wp_en p)) (mi_wports m) ++
+  zn (length (mi_rports m)) ::
+  flat_map (fun p => zn (rp_dom p) :: enc_expr (rp_addr p) ++ enc_expr (rp_data p) ++ enc_expr (rp_en p) ++
+                     zn (length (rp_transp p)) :: map zn (rp_transp p)) (mi_rports m).
+
 Fixpoint enc_frag (f : frag) : list Z :=
   match f with
-  | Frag st subs =>
+  | Frag st ms subs =>
       10 :: zn (length st) ::
       flat_map (fun e => zn (fst e) :: zn (length (snd e)) :: flat_map enc_stmt (snd e)) st ++
+      zn (length ms) :: flat_map enc_mem ms ++
       zn (length subs) :: flat_map enc_frag subs
   end.
 
@@ -77,3 +85,11 @@ Definition trace_with (stp : design -> event -> env -> env) (tab : list sigdesc)
   flat_map (fun en => map en reads) (e0 :: run_with stp D evs e0).
 Definition k_trace := trace_with step.
 Definition k_trace_spec := trace_with step_spec.
+
+(* designs with memories: the signals `reads` and every row of every memory, initially and after every event *)
+Definition k_mtrace (tab : list sigdesc) (doms : list domcfg) (t : ftree) (reads : list nat) (evs : list event) : list Z :=
+  let f := elab (mk_tab tab) t in
+  let D := mk_design (mk_tab tab) (mk_doms doms) f (length tab) in
+  let ms := frag_mems f in
+  let s0 := minit D ms in
+  flat_map (fun s => map (fst s) reads ++ concat (snd s)) (s0 :: mrun D ms evs s0).
